@@ -107,26 +107,50 @@ Print Assumptions C17_alph_monotone.
     (Vp8.Vp8Bool, the VP8 builder's specification decoder).  It is NOT
     prefix-monotone by itself -- beyond the data it reads zero bytes -- but every
     literal / tree symbol decoded without raising the past-end flag is decoded
-    identically when arbitrary bytes are appended, with the flag still clear.
-    Vp8Spec.decode_yuv turns the flag into E_TRUNC; appending bytes to a frame only
-    extends its last token partition.  The frame-level statement
-    (PrefixVp8Bool.vp8_frame_prefix_full_statement) is not proved: the lifting
-    through Vp8Syntax is not done. *)
+    identically when arbitrary bytes are appended, with the flag still clear. *)
 From Webp Require Vp8.Vp8Bool Riff.PrefixVp8Bool.
-Theorem C17_vp8_bool_literal_prefix_stable_partial : forall l ext k v d1,
+Theorem C17_vp8_bool_literal_prefix_stable : forall l ext k v d1,
   bytes_ok l -> bytes_ok ext ->
   Vp8Bool.read_lit k (Vp8Bool.bd_init l) = (v, d1) -> Vp8Bool.bd_past d1 = false ->
   exists d1', Vp8Bool.read_lit k (Vp8Bool.bd_init (l ++ ext)) = (v, d1') /\ Vp8Bool.bd_past d1' = false.
 Proof. exact PrefixVp8Bool.bool_literal_prefix_stable. Qed.
-Print Assumptions C17_vp8_bool_literal_prefix_stable_partial.
+Print Assumptions C17_vp8_bool_literal_prefix_stable.
 
-Theorem C17_vp8_bool_tree_prefix_stable_partial :
+Theorem C17_vp8_bool_tree_prefix_stable :
   forall (A : Type) (t : Vp8Bool.tree A) probs l ext a d1,
   bytes_ok l -> bytes_ok ext -> Forall (fun p => 0 <= p <= 255) probs ->
   Vp8Bool.read_tree t probs (Vp8Bool.bd_init l) = (a, d1) -> Vp8Bool.bd_past d1 = false ->
   exists d1', Vp8Bool.read_tree t probs (Vp8Bool.bd_init (l ++ ext)) = (a, d1') /\ Vp8Bool.bd_past d1' = false.
 Proof. exact PrefixVp8Bool.bool_tree_prefix_stable. Qed.
-Print Assumptions C17_vp8_bool_tree_prefix_stable_partial.
+Print Assumptions C17_vp8_bool_tree_prefix_stable.
+
+(** Codec layer, VP8 (lossy), whole key frame (Vp8.Vp8Spec, the VP8 builder's
+    specification decoder: frame tag, first-partition header, partition table,
+    per-macroblock mode / token parsing, reconstruction, loop filter).
+    Vp8Spec.decode_yuv turns a past-end read in any partition into E_TRUNC, and
+    appending bytes to a frame only extends its last token partition; so a byte
+    string that decodes still decodes, to the same planes, when bytes are
+    appended, and a prefix of a frame is rejected or decodes to the picture of the
+    complete frame.  The same holds for the variant of the specification with the
+    Go decoder's documented deviations (decode_go), given that no partition was
+    read past its end. *)
+From Webp Require Vp8.Vp8Spec Riff.PrefixVp8Frame.
+Theorem C17_vp8_frame_prefix_monotone : forall d ext r,
+  bytes_ok d -> bytes_ok ext ->
+  Vp8Spec.decode_yuv d = Ok r -> Vp8Spec.decode_yuv (d ++ ext) = Ok r.
+Proof. exact PrefixVp8Frame.vp8_frame_prefix_monotone. Qed.
+Print Assumptions C17_vp8_frame_prefix_monotone.
+
+Theorem C17_vp8_prefix_all_or_nothing : forall file n r,
+  bytes_ok file -> Vp8Spec.decode_yuv (firstn n file) = Ok r -> Vp8Spec.decode_yuv file = Ok r.
+Proof. exact PrefixVp8Frame.vp8_prefix_all_or_nothing. Qed.
+Print Assumptions C17_vp8_prefix_all_or_nothing.
+
+Theorem C17_vp8_decode_go_prefix : forall d ext r,
+  bytes_ok d -> bytes_ok ext ->
+  Vp8Spec.decode_go d = Ok r -> Vp8Spec.dc_past_end r = false -> Vp8Spec.decode_go (d ++ ext) = Ok r.
+Proof. exact PrefixVp8Frame.vp8_decode_go_prefix. Qed.
+Print Assumptions C17_vp8_decode_go_prefix.
 
 Theorem C17_vp8_bool_past_end_differs :
   exists l ext k,
@@ -134,6 +158,39 @@ Theorem C17_vp8_bool_past_end_differs :
     Vp8Bool.bd_past (snd (Vp8Bool.read_lit k (Vp8Bool.bd_init l))) = true.
 Proof. exact PrefixVp8Bool.bool_past_end_differs. Qed.
 Print Assumptions C17_vp8_bool_past_end_differs.
+
+(** Codec layer, the Go reader itself: internal/bitio.BoolReader as modelled by the VP8
+    builder (Vp8.Vp8GoReader: 64-bit value register, 7-byte bulk loads, single-byte
+    loads near the end, [gr_eof] = the flag behind BoolReader.EOF(), which
+    lossy.Decoder checks after the headers and after every macroblock).  GetBit sets
+    the flag exactly when it needs a byte and none is left and never clears it; and
+    for every decoding strategy (the probabilities may depend on the bits read so
+    far): if NewBoolReader(l) followed by the reads ends with EOF() == false, then
+    NewBoolReader(l ++ ext) followed by the same reads returns the same bits with
+    EOF() == false.  Hypothesis on the data: non-empty, first byte not 0xFF (the
+    arithmetic decoder's invariant value < range, which every encoder output has).
+    Without the flag the reader is not prefix-stable (witness). *)
+From Webp Require Vp8.Vp8BoolAbs Vp8.Vp8GoReader Riff.PrefixBitio.
+Theorem C17_go_bool_reader_eof_flag : forall p g,
+  Vp8GoReader.gr_eof (snd (Vp8GoReader.gr_bit p g)) =
+  (Vp8GoReader.gr_eof g || ((Vp8GoReader.gr_bits g <? 0) && PrefixBitio.is_nil (Vp8GoReader.gr_rest g)))%bool.
+Proof. exact PrefixBitio.gr_bit_eof. Qed.
+Print Assumptions C17_go_bool_reader_eof_flag.
+
+Theorem C17_go_bool_reader_prefix_stable : forall pr l ext bs g1,
+  Forall Vp8BoolAbs.is_byte l -> Forall Vp8BoolAbs.is_byte ext -> l <> [] ->
+  Vp8BoolAbs.bval l < 255 * 2 ^ (8 * (Z.of_nat (length l) - 1)) -> PrefixBitio.prog_ok pr ->
+  PrefixBitio.run pr (PrefixBitio.gr_new l) = (bs, g1) -> Vp8GoReader.gr_eof g1 = false ->
+  exists g1', PrefixBitio.run pr (PrefixBitio.gr_new (l ++ ext)) = (bs, g1') /\ Vp8GoReader.gr_eof g1' = false.
+Proof. exact PrefixBitio.go_bool_reader_prefix_stable. Qed.
+Print Assumptions C17_go_bool_reader_prefix_stable.
+
+Theorem C17_go_bool_reader_past_end_differs :
+  fst (PrefixBitio.run (PrefixBitio.lit 12) (PrefixBitio.gr_new [0])) <>
+  fst (PrefixBitio.run (PrefixBitio.lit 12) (PrefixBitio.gr_new [0; 255])) /\
+  Vp8GoReader.gr_eof (snd (PrefixBitio.run (PrefixBitio.lit 12) (PrefixBitio.gr_new [0]))) = true.
+Proof. exact PrefixBitio.go_bool_reader_past_end_differs. Qed.
+Print Assumptions C17_go_bool_reader_past_end_differs.
 
 (** Pinned tree (parser before commit 86109c7, [pinned_*] definitions): the
     statement is false (finding, repaired). *)
